@@ -20,7 +20,7 @@ INVARIANTS = {
     "C03": ["MintRules", "Limits", "AskedWhatIsLeft", "MintTamperedRejected"],
     "C04": ["RevertFrame", "SkipFrame"],
     "C05": ["DaExact", "ImportedInOrder", "MessageImportedOnce", "ForcedExecutedOrFailed", "InboxRoot", "MessagesLand"],
-    "C06": ["ExecutedOnce", "DupRejected"],
+    "C06": ["ExecutedOnce", "ProcessedRecorded", "DupRejected"],
 }
 
 ASSUMPTIONS = [
